@@ -1,4 +1,4 @@
-From Orbit Require Export Corr.Common Spec.Replay.
+From Orbit Require Export Corr.Common Spec.Replay Model.Current.
 
 Inductive case :=
 | CKv (univ : list entry) (prev : kvmap) (listing : list N) (obs : kvmap) (gets : list (bytes * option N)).
@@ -34,12 +34,25 @@ Fixpoint links_before (seen : list N) (vals : list entry) (all : list N) : bool 
     forallb (fun c => negb (memN c all) || memN c seen) (enext e) && links_before (eh e :: seen) rest all
   end.
 
+(** Mechanism of /repo as it stands, [stores/kvstore/index.go] and
+    [stores/documentstore/index.go] UpdateIndex:
+    - [false]: the Go map is never reset, a rebuild starts from the previous contents
+      ([kv_update vals prev]).  Sound as long as the log only grows; a [Load] with a limit
+      on a store holding more entries than the limit cuts the log down and the keys of the
+      entries that left it survive in the view (finding [index-keeps-dropped-entries]).
+    - [true] (fix "the index is rebuilt from the entries the log holds"): every rebuild
+      starts from an empty map ([kv_update vals []]). *)
+(* [index_rebuild_resets_current] lives in Model/Current.v *)
+
+Definition rebuild_start (prev : kvmap) : kvmap :=
+  if index_rebuild_resets_current then [] else prev.
+
 Definition check (c : case) : bool * bool :=
   match c with
   | CKv univ prev listing obs gets =>
     let vals := resolve univ listing in
     let complete := (length vals =? length listing)%nat in
-    let m := kv_update vals prev in
+    let m := kv_update vals (rebuild_start prev) in
     (complete && kvmap_eqb m obs &&
        forallb (fun g => optN_eqb (kv_get (fun k => alookup bytes_eqb k m) (fst g)) (snd g)) gets,
      obs_matches_replay vals obs &&
